@@ -16,5 +16,6 @@ def run(tier, seed, work):
     per, depth, nj = (3, 40, 10) if quick else (25, 50, 12)
     js = bc.jobs("c03", seed, per, depth, nj) + bc.jobs("c03deep", seed + 5, max(1, per // 2), depth, 4, mode="deep")
     groups = [("Trace_Bridge.tla", "Trace_Bridge_C03.cfg", js)]
+    proofs = [verif.prove("Proofs_BridgeArith", work)]   # TLAPS: tax < value and >= 0 for every value and every safe parameter set
     return verif.run_stateful_check("C03", tier, seed, work, mc_list=mc, groups=groups, key_fn=bc.key,
-                                    level="model_checking", assumptions=bc.ASSUME, rule=RULE)
+                                    level="model_checking", extra_cov=dict(unbounded_lemmas=proofs), assumptions=bc.ASSUME, rule=RULE)
